@@ -728,6 +728,35 @@ func c15Family(ctx *Ctx) error {
 			run(c, "same_type_different_syscalls")
 		}
 	}
+	// 2b. long values in falling sizes: events whose arguments, titles, paths and keys decode from hex to 8 KiB down
+	// to half a KiB, all held while the later ones are made (and, the second time, in rising sizes)
+	for _, sizes := range [][]int{{8192, 4096, 3000, 2048, 1500, 1100, 1024, 1023, 600, 512}, {512, 1024, 2048, 4096, 2048, 1024, 512}, {1024, 1024, 1024, 1024}} {
+		if stop() {
+			break
+		}
+		var c C15Case
+		for i, n := range sizes {
+			seq := uint32(7000 + i)
+			ms := int64(1500000000000) + int64(i)
+			fill := func(tag string) string {
+				s := fmt.Sprintf("%s %d:", tag, i)
+				for len(s) < n {
+					s += fmt.Sprintf(" %s%d-%d", tag, i, len(s))
+				}
+				return s[:n]
+			}
+			_, sbody := coGenBody(rng, coKSyscall, 0)
+			g := []coal.Rec{{Typ: tSYSCALL, Seq: seq, Ms: ms, Body: sbody + " key=" + coUpHex(fill("k")[:n/4]+"\x01x")},
+				{Typ: tEXECVE, Seq: seq, Ms: ms, Body: "argc=3 a0=\"sh\" a1=" + coUpHex(fill("arg")) + " a2=" + coUpHex(fill("second"))},
+				{Typ: tCWD, Seq: seq, Ms: ms, Body: "cwd=" + coUpHex(fill("/w d"))},
+				{Typ: tPATH, Seq: seq, Ms: ms, Body: "item=0 name=" + coUpHex(fill("/p ath")) + " inode=7 dev=fd:00 mode=0100600 ouid=0 ogid=0 rdev=00:00 nametype=NORMAL"},
+				{Typ: tPROCTITLE, Seq: seq, Ms: ms, Body: "proctitle=" + coUpHex(fill("title\x00x"))}}
+			c.Groups = append(c.Groups, g)
+			c.Ops = append(c.Ops, C15Op{K: "co", G: i})
+		}
+		c.Ops = append(c.Ops, C15Op{K: "res", E: 0}, C15Op{K: "co", G: 0})
+		run(c, "long_values_held")
+	}
 	// 3. random histories
 	for i := 0; i < ctx.N(1500, 60000) && !stop(); i++ {
 		c := genC15Case(rng)
